@@ -235,6 +235,8 @@ def gen_sdl(seed, idx):
         qf.append("%s  q_%d%s: %s%s%s" % (
             _desc(r, "  "), j, args(), t, _deprecated(r),
             _dirs(r, "FIELD_DEFINITION")))
+    # always: empty object literals as defaults (alone and inside a list)
+    qf.append("  q_opts(o: Opts = {}, os: [Opts!] = [{}, {tag: \"x\"}]): Int")
     out.append("type %s {\n%s\n}" % (qname, "\n".join(qf)))
     if has_mut:
         out.append("type %s {\n  do_it(p: Pt = {x: 1}): Int\n}" % mname)
